@@ -22,12 +22,12 @@ statements that the unchanged code violates are kept as `def … : Prop` with a 
 -/
 import Apko.Proofs.Lemmas.FormatsIndex
 import Apko.Proofs.Lemmas.FormatsPasswd
-import Apko.Proofs.Lemmas.FormatsIdbSample
-import Apko.Proofs.Lemmas.FormatsCodec
+import Apko.Proofs.Lemmas.FormatsIdbTable
 import Apko.Proofs.Lemmas.FormatsIdbTotal
 import Apko.Proofs.Lemmas.FormatsSortComplete
 import Apko.Proofs.Lemmas.FormatsSortNodup
 import Apko.Proofs.Lemmas.FormatsNoPanic
+import Apko.Proofs.Lemmas.FormatsSortOrder
 
 namespace Apko.C16
 open Apko Apko.Formats
@@ -253,18 +253,15 @@ example : canonText canonGroupLine (writeGroups [sampleGroup, noMembers]) = true
 
 /-! ## installed db -/
 
-set_option maxRecDepth 1000000 in
-/-- over the regenerated tables (one evaluation of both tables): the lines of `PackageToInstalled` are
-the `i:` line (printed with `%s` of a `[]string`, read with `splitRepeatedField`) plus rows that satisfy
-`tableOK` with the cases of `ParseInstalled`, every field of the record has a line; `F:` `M:` `R:` `a:`
-are the file cases (the parsed permissions reach `pkg.Files`), `Z:` has no case -/
-theorem field_inverse_idb_all : (idbTableOK idbRows idbCases && fileCasesOK idbCases) = true := by decide
+/-- over the regenerated tables (evaluated once, in `Lemmas/FormatsIdbTable.lean`): the lines of
+`PackageToInstalled` are the `i:` line (printed with `%s` of a `[]string`, read with
+`splitRepeatedField`) plus rows that satisfy `tableOK` with the cases of `ParseInstalled`, and every
+field of the record has a line -/
+theorem field_inverse_idb_table : idbTableOK idbRows idbCases = true := idb_tables_ok_pkg
 
-theorem field_inverse_idb_table : idbTableOK idbRows idbCases = true := by
-  have := field_inverse_idb_all; simp only [Bool.and_eq_true] at this; exact this.1
-
-theorem field_inverse_idb_files : fileCasesOK idbCases = true := by
-  have := field_inverse_idb_all; simp only [Bool.and_eq_true] at this; exact this.2
+/-- over the regenerated switch: `F:` `M:` `R:` `a:` are the file cases (the parsed permissions reach
+`pkg.Files`), `Z:` has no case -/
+theorem field_inverse_idb_files : fileCasesOK idbCases = true := idb_tables_ok_files
 
 /-- `sortTarHeaders_parent_adjacent`: in the order `AddInstalledPackage` writes headers, every
 non-directory record is preceded by the record of its parent directory with only non-directory
@@ -293,7 +290,7 @@ theorem idb_read_write (c : Codec) (hc : c.Lawful) (ips : List IPkg) (t : Text)
     (hr : renderInstalledAll c idbRows ips = .ok t) (hwf : ∀ ip ∈ ips, WFIPkg ip = true)
     (hfit : linesFit defaultTokenMax (rawLines t) = true) :
     parseInstalled c idbCases idbGuarded t = .ok (ips.map readBack) :=
-  parseInstalled_render c hc idbCases idbGuarded idbRows field_inverse_idb_table field_inverse_idb_files ips t hr hwf hfit
+  parseInstalled_idb c hc idbGuarded ips t hr hwf hfit
 
 /-- the package part of `readBack`: all fields except `install_if` -/
 theorem idb_read_write_fields (ip : IPkg) (f : Field) (hf : f ≠ .installIf) :
@@ -318,20 +315,12 @@ theorem fileProj_keeps (f : FileRec) :
   intro h1 h2
   exact Int.emod_eq_of_lt h1 (by omega)
 
-def sampleFileLines : List Text := match filesLines idCodec sampleFiles with | .ok fl => fl | _ => []
-theorem sampleFileLines_ok : filesLines idCodec sampleFiles = .ok sampleFileLines := by decide
-
-set_option maxRecDepth 100000 in
 /-- the hypotheses are satisfiable by a non-trivial package (nested directories, special modes,
 owners, negative gid, both checksum forms, every list shape, maximal integer): well-formed, in
 `sortTarHeaders` order, renders, fits -/
 example : WFIPkg sampleIPkg = true ∧ sortHeaders sampleIPkg.files = some sampleIPkg.files ∧
-    ∃ t, renderInstalled idCodec idbRows sampleIPkg = .ok t ∧ linesFit defaultTokenMax (rawLines t) = true := by
-  refine ⟨by decide, sampleFiles_sorted, ?_⟩
-  unfold renderInstalled
-  rw [show sampleIPkg.files = sampleFiles from rfl, sampleFiles_sorted]
-  simp only [sampleFileLines_ok, Res.bind]
-  exact ⟨_, rfl, by decide⟩
+    ∃ t, renderInstalled escCodec idbRows sampleIPkg = .ok t ∧ linesFit defaultTokenMax (rawLines t) = true :=
+  ⟨by decide, sampleFiles_sorted, sampleIPkg_renders⟩
 
 /-- … and by headers in a different order (the theorem then speaks about the sorted list) -/
 example : WFIPkg sampleIPkg' = true ∧ sortHeaders sampleIPkg'.files = some sampleFiles := ⟨by decide, sampleFiles_shuffled⟩
@@ -362,33 +351,24 @@ def idb_write_read : Prop :=
     (∀ ip ∈ ips, WFIPkg ip = true) → linesFit defaultTokenMax (rawLines t) = true →
     ∃ qs, parseInstalled c idbCases idbGuarded t = .ok qs ∧ renderInstalledAll c idbRows qs = .ok t
 
-def minimalIPkg : IPkg := ⟨{ name := ['a'] }, []⟩
-
-theorem render_noFiles (c : Codec) (p : Pkg) :
-    renderInstalledAll c idbRows [⟨p, []⟩] = .ok (unlines (recLines c idbRows p ++ [[]])) := by
-  simp [renderInstalledAll, renderInstalled, sortHeaders_nil, filesLines, Res.bind]
-
-set_option maxRecDepth 1000000 in
 /-- … is false for every package, because of the `i:` line (F16a-idb: `i:[]` reads back as `["[]"]` and
-is written again as `i:[[]]`): the smallest witness -/
+is written again as `i:[[]]`): the smallest witness (`minimal_facts`) -/
 theorem idb_write_read_fails : ¬ idb_write_read := by
   intro h
-  obtain ⟨qs, h1, h2⟩ := h escCodec escCodec_lawful [minimalIPkg] _ (render_noFiles escCodec _) (by decide) (by decide)
-  rw [idb_read_write escCodec escCodec_lawful [minimalIPkg] _ (render_noFiles escCodec _) (by decide) (by decide)] at h1
-  simp only [Res.ok.injEq] at h1
-  subst h1
-  simp only [List.map_cons, List.map_nil, readBack, minimalIPkg, sortHeaders_nil, Option.getD_some, render_noFiles,
-    Res.ok.injEq] at h2
-  revert h2
-  decide
+  obtain ⟨h1, h2, _, h4⟩ := minimal_facts
+  obtain ⟨qs, hq1, hq2⟩ := h escCodec escCodec_lawful [minimalIPkg] _ h1 (by decide) h2
+  rw [idb_read_write escCodec escCodec_lawful [minimalIPkg] _ h1 (by decide) h2] at hq1
+  simp only [Res.ok.injEq] at hq1
+  subst hq1
+  exact h4 hq2
 
 theorem idb_read_write_full_fails : ¬ idb_read_write_full := by
   intro h
-  have h1 := h escCodec escCodec_lawful [minimalIPkg] _ (render_noFiles escCodec _) (by decide) (by decide)
-  rw [idb_read_write escCodec escCodec_lawful [minimalIPkg] _ (render_noFiles escCodec _) (by decide) (by decide)] at h1
-  simp only [Res.ok.injEq, List.map_cons, List.map_nil, readBack, minimalIPkg, sortHeaders_nil, Option.getD_some] at h1
-  revert h1
-  decide
+  obtain ⟨h1, h2, h3, _⟩ := minimal_facts
+  have hq := h escCodec escCodec_lawful [minimalIPkg] _ h1 (by decide) h2
+  rw [idb_read_write escCodec escCodec_lawful [minimalIPkg] _ h1 (by decide) h2] at hq
+  simp only [Res.ok.injEq, List.map_cons, List.map_nil, List.cons.injEq, and_true] at hq
+  exact h3 hq
 
 /-! ## `AddInstalledPackage` is total on well-formed input -/
 
@@ -472,5 +452,21 @@ theorem readers_no_panic (c : Codec) (t : Text) :
 
 /-- without the guard a one-byte line indexes out of range (F15a, repaired) -/
 theorem unguarded_panics : parseInstalled idCodec [] false "x\n".toList = .oob := by decide
+
+/-! ## the installed db does not depend on the order of the tar entries -/
+
+/-- `sortTarHeaders` of a tree-shaped header list is the same list for every permutation of the input -/
+theorem sortTarHeaders_order_independent (hs1 hs2 : List FileRec) (ht : treeOK hs1 = true) (hp : hs1.Perm hs2) :
+    sortHeaders hs1 = sortHeaders hs2 :=
+  sortHeaders_perm_invariant hs1 hs2 (treeOK_spec hs1 ht) hp
+
+/-- … hence so is the text `AddInstalledPackage` appends -/
+theorem idb_order_independent (c : Codec) (p : Pkg) (fs1 fs2 : List FileRec) (ht : treeOK fs1 = true)
+    (hp : fs1.Perm fs2) : renderInstalled c idbRows ⟨p, fs1⟩ = renderInstalled c idbRows ⟨p, fs2⟩ := by
+  unfold renderInstalled
+  simp only [sortTarHeaders_order_independent fs1 fs2 ht hp]
+
+example : sortHeaders sampleFiles.reverse = sortHeaders sampleFiles :=
+  (sortTarHeaders_order_independent sampleFiles sampleFiles.reverse (by decide) (List.reverse_perm _).symm).symm
 
 end Apko.C16
